@@ -7,6 +7,7 @@ import (
 	"os"
 	"os/exec"
 	"path/filepath"
+	"strconv"
 	"strings"
 	"sync"
 	"time"
@@ -31,6 +32,22 @@ func (ob *Obligation) smtText(models bool, mode string) string {
 	tRel += time.Since(tA).Seconds()
 	tB := time.Now()
 	defer func() { tRest += time.Since(tB).Seconds() }()
+	if ob.caseMap != nil {
+		// one case of the join this obligation's state was merged at: the reach condition of one
+		// incoming path is true, those tried before it are false; the ite-merged terms collapse
+		memo := map[*Term]*Term{}
+		var nh []*Term
+		for _, h := range hyps {
+			if r := c.replace(h, ob.caseMap, memo); !c.isTrue(r) {
+				nh = append(nh, r)
+			}
+		}
+		hyps = append(nh, ob.caseFacts...) // the case itself, as facts (its conjuncts guard other hypotheses)
+		saved := ob.Goal
+		ob.Goal = c.replace(ob.Goal, ob.caseMap, memo)
+		defer func() { ob.Goal = saved }()
+		fmt.Fprintf(&sb, "; case %s of the last join\n", ob.caseName)
+	}
 	switch mode {
 	case "cover":
 		memo := map[*Term]bool{}
@@ -43,7 +60,11 @@ func (ob *Obligation) smtText(models bool, mode string) string {
 		hyps = qf
 	case "ground":
 		var dropped int
-		hyps, dropped = c.groundInstances(hyps, ob.Goal, 3)
+		rounds := 3
+		if r, err := strconv.Atoi(os.Getenv("GOVC_ROUNDS")); err == nil && r > 0 {
+			rounds = r
+		}
+		hyps, dropped = c.groundInstances(hyps, ob.Goal, rounds)
 		fmt.Fprintf(&sb, "; ground instantiation: %d quantified items replaced by instances\n", dropped)
 	case "small":
 		// model extraction in a small scope: sequences are short and recursive spec functions are
@@ -274,7 +295,42 @@ func discharge(ob *Obligation, dir string, timeoutMs int, confirm bool) {
 		}
 		return
 	}
-	// not proved
+	// not proved as one query: try it case by case over the paths merged at the last join (each case is
+	// a smaller query in which the merged terms collapse; all cases unsat == the obligation holds)
+	if ob.caseMap == nil && len(ob.Splits) >= 2 && !ob.Cover {
+		c := ob.ctx.c
+		all := true
+		secs := total
+		for i := range ob.Splits {
+			d := *ob
+			d.Splits = nil
+			d.Name = fmt.Sprintf("%s#case%d", ob.Name, i+1)
+			d.caseName = fmt.Sprintf("%d of %d", i+1, len(ob.Splits))
+			genMu.Lock()
+			d.caseMap = map[*Term]*Term{}
+			d.caseFacts = nil
+			for j := 0; j < i; j++ {
+				d.caseMap[ob.Splits[j]] = c.False()
+				d.caseFacts = append(d.caseFacts, c.Not(ob.Splits[j]))
+			}
+			if i < len(ob.Splits)-1 {
+				d.caseMap[ob.Splits[i]] = c.True()
+			}
+			d.caseFacts = append(d.caseFacts, ob.Splits[i])
+			genMu.Unlock()
+			discharge(&d, dir, timeoutMs, false)
+			secs += d.Seconds
+			if d.Verdict != "unsat" {
+				all = false
+				break
+			}
+		}
+		if all {
+			ob.Verdict, ob.Solver, ob.Seconds = "unsat", fmt.Sprintf("case-split(%d)", len(ob.Splits)), secs
+			return
+		}
+		total = secs
+	}
 	ob.Seconds = total
 	if groundSat || fullRes.verdict == "sat" {
 		ob.Verdict = "sat"
